@@ -15,6 +15,28 @@ VERIF = os.path.dirname(os.path.dirname(os.path.abspath(__file__)))
 OUT = os.environ.get("VERIF_OUT", VERIF)  # development aid: evidence/replays of runs against a scratch tree go elsewhere
 
 
+class _CaseTimeout(Exception):
+    pass
+
+
+def _with_time_limit(fn, case, seconds):
+    """run one bounded case on the real code under a wall-clock limit (main thread, SIGALRM)"""
+    import signal
+
+    def handler(signum, frame):
+        raise _CaseTimeout()
+    try:
+        old = signal.signal(signal.SIGALRM, handler)
+    except ValueError:  # not in the main thread
+        return fn(case)
+    signal.setitimer(signal.ITIMER_REAL, seconds)
+    try:
+        return fn(case)
+    finally:
+        signal.setitimer(signal.ITIMER_REAL, 0)
+        signal.signal(signal.SIGALRM, old)
+
+
 class Obl:
     def __init__(self, name, hyps, goal, kind="post", tactics=("poly", "linear"), expect="unsat", meta=None, contract=None, cfg=None, clause=None):
         self.name, self.hyps, self.goal, self.kind = name, hyps, goal, kind
@@ -85,6 +107,7 @@ class Check:
         self.assumptions = set()
         self.samples = []
         self.timeout_ms = 10000 if tier == "quick" else 60000
+        self.case_time_limit = 120 if tier == "quick" else 600  # per bounded case: a changed tree may make the real code loop forever
         kf = os.path.join(VERIF, "known_findings.json")
         self.known = json.load(open(kf)) if os.path.exists(kf) else {"findings": [], "fixed": []}
         self.known_ids = {f["id"]: f for f in self.known.get("findings", []) if f.get("property") == prop}
@@ -241,7 +264,9 @@ class Check:
             if nontrivial is None or nontrivial(case):
                 distinct.add(key)
             try:
-                r = fn(case)
+                r = _with_time_limit(fn, case, self.case_time_limit)
+            except _CaseTimeout:
+                r = {"what": f"the real code did not finish this case within {self.case_time_limit} s (every case of the accepted tree finishes within seconds)"}
             except Exception as e:
                 r = {"crash": "".join(traceback.format_exception_only(type(e), e)).strip(), "tb": traceback.format_exc()[-1500:]}
             if sample is None:
@@ -357,7 +382,9 @@ class Check:
         violation of the named obligation; the replay file carries the solver's output; a failing input is searched natively"""
         r, c = o.result, o.contract
         try:
-            rep = c.replay(o.clause.split("].", 1)[-1], {}, o.cfg) or {"reproduced": None}
+            rep = _with_time_limit(lambda _: c.replay(o.clause.split("].", 1)[-1], {}, o.cfg), None, 300) or {"reproduced": None}
+        except _CaseTimeout:
+            rep = {"reproduced": None, "why": "replay on the real code did not finish within 300 s"}
         except Exception as e:
             rep = {"reproduced": None, "why": "replay crashed: " + "".join(traceback.format_exception_only(type(e), e)).strip()}
         if len([v for v in self.violations if v.get("lost")]) >= 6:
@@ -385,7 +412,9 @@ class Check:
             return
         if c is not None:
             try:
-                rep = c.replay(o.clause.split("].", 1)[-1], r["model"] or {}, o.cfg) or {"reproduced": None}
+                rep = _with_time_limit(lambda _: c.replay(o.clause.split("].", 1)[-1], r["model"] or {}, o.cfg), None, 300) or {"reproduced": None}
+            except _CaseTimeout:
+                rep = {"reproduced": None, "why": "replay on the real code did not finish within 300 s"}
             except Exception as e:
                 rep = {"reproduced": None, "why": "replay crashed: " + "".join(traceback.format_exception_only(type(e), e)).strip()}
         body = {"kind": "deductive", "obligation": o.name, "clause": o.clause, "function": (f"{c.module}.{c.qual}" if c else None), "config": (c.cfg_name(o.cfg) if c else None),
